@@ -282,6 +282,13 @@ func genFmtCase(r *RNG, bad [][]string) fmtCase {
 				sb.WriteString(Pick(r, []string{"!!! not a journal line ", "#row;2024-01-15;card payment;-12.50;", "    orphan:posting  1 USD ; ", "99x bad date "}) + fmt.Sprint(k) + j.EOL)
 			}
 			text = sb.String() + j.EOL + text + j.EOL + "2019-09-09 lot" + j.EOL + "    assets:broker  10 AAPL {$150.00} @ $151.20" + j.EOL + "    assets:cash" + j.EOL
+		case 2:
+			// account names with nonspacing marks (NFD text, Devanagari, Thai and Arabic vowel signs),
+			// long enough to be the longest of the document: widths are counted in characters
+			marked := []string{"cafe\u0301", "re\u0301sume\u0301", "नकदी", "हिंदी", "อาหาร", "กลางวัน", "كِتَاب", "e\u0301\u0301\u0301"}
+			a := "liabilities:credit card:" + Pick(r, marked) + ":" + Pick(r, marked) + strings.Repeat("x", r.Intn(4))
+			b := "expenses:" + Pick(r, marked)
+			text += j.EOL + "2019-09-09 marks" + j.EOL + "    " + a + "  5 USD" + j.EOL + "    " + b + "  -2 USD" + j.EOL + "    assets:cash  -3 USD" + j.EOL
 		default:
 			text = hostileText(r, text)
 		}
@@ -350,7 +357,7 @@ func fmtCounts(tier string) int64 {
 	return 40000
 }
 
-const fmtRule = "documents: journals from G (clean pool), journals with one damaged line, and hostile mutations; x formatting configuration (indent 1-8, alignment on/off, minimum column 0/1/20/40/80) x commodity formats (commodity / D directives with point or comma decimals, comma/point/space/no groups, 0-8 decimals) declared in the file or in the workspace root that includes it; the real server formats the document, a reference edit applier applies the edits, the result is parsed and analysed again. "
+const fmtRule = "documents: journals from G (clean pool), journals with one damaged line, and hostile mutations (among them inclusive assertions, more than a hundred broken lines in front of a lot price, and account names with nonspacing marks that are the longest of the document); x formatting configuration (indent 1-8, alignment on/off, minimum column 0/1/20/40/80) x commodity formats (commodity / D directives with point or comma decimals, comma/point/space/no groups, 0-8 decimals) declared in the file or in the workspace root that includes it; the real server formats the document, a reference edit applier applies the edits, the result is parsed and analysed again. "
 
 func init() {
 	Register(&Prop{
